@@ -91,6 +91,9 @@ type TwoChain struct {
 	// handler's mint / transfer (see L2Env.DeliverWithBankFault); FaultsFired counts them
 	BankFaults  *mon.Rand
 	FaultsFired int
+	// SeqAnomaly: the first announced withdrawal whose L2 sequence is not its predecessor's + 1 (two withdrawals with one
+	// sequence collapse into one L1 leaf; a gap is a withdrawal nobody can commit)
+	SeqAnomaly string
 
 	PendingDeposits []L1DepositEvent    // emitted on L1, not yet relayed
 	Recorded        []L2WithdrawalEvent // recorded on L2, not yet committed in an output
@@ -150,9 +153,16 @@ func (tc *TwoChain) RelayNext() (sim.Result, bool) {
 
 func (tc *TwoChain) record(res sim.Result) {
 	ws := parseL2Withdrawals(res.Events)
+	for _, w := range ws {
+		if n := len(tc.AllWithdrawals); n > 0 && w.Seq != tc.AllWithdrawals[n-1].Seq+1 && tc.SeqAnomaly == "" {
+			tc.SeqAnomaly = fmt.Sprintf("withdrawal announced with L2 sequence %d right after sequence %d", w.Seq, tc.AllWithdrawals[n-1].Seq)
+		}
+		tc.AllWithdrawals = append(tc.AllWithdrawals, w)
+	}
 	tc.Recorded = append(tc.Recorded, ws...)
-	tc.AllWithdrawals = append(tc.AllWithdrawals, ws...)
+	return
 }
+
 
 // L2Withdraw delivers a user withdrawal on L2 and records the emitted event.
 func (tc *TwoChain) L2Withdraw(user sim.Account, to, l2denom string, amt math.Int) sim.Result {
